@@ -567,10 +567,11 @@ func (sc storageCase) String() string {
 
 func runStorage(sc storageCase, observeEvery bool) (viol, what string, collided bool) {
 	alpha := recordAlphabet()
-	var ds, twin *hostsfile.DefaultStorage
+	var ds, twin, lag *hostsfile.DefaultStorage
 	if pv, _ := runlib.Try(func() {
 		ds, _ = hostsfile.NewDefaultStorage()
 		twin, _ = hostsfile.NewDefaultStorage()
+		lag, _ = hostsfile.NewDefaultStorage()
 	}); pv != nil {
 		return "panic", fmt.Sprintf("NewDefaultStorage panicked: %v", pv), false
 	}
@@ -579,9 +580,20 @@ func runStorage(sc storageCase, observeEvery bool) (viol, what string, collided 
 	for step, i := range sc.Recs {
 		t := alpha[i]
 		before := fmt.Sprint(m.names, m.addrs)
-		var eq1, eq2 bool
+		var eq1, eq2, eqLag1, eqLag2, eqNil, nilEqNil bool
+		var firstOnly [2]int
 		if pv, stack := runlib.Try(func() {
+			// lag is one record behind ds.
+			if step > 0 {
+				p := alpha[sc.Recs[step-1]]
+				lag.Add(&hostsfile.Record{Addr: p.addr, Names: append([]string(nil), p.names...), Source: "l"})
+			}
+
 			ds.Add(&hostsfile.Record{Addr: t.addr, Names: append([]string(nil), t.names...), Source: "s"})
+			eqLag1, eqLag2 = ds.Equal(lag), lag.Equal(ds)
+			eqNil, nilEqNil = ds.Equal(nil), (*hostsfile.DefaultStorage)(nil).Equal(nil)
+			ds.RangeNames(func(netip.Addr, []string) bool { firstOnly[0]++; return false })
+			ds.RangeAddrs(func(string, []netip.Addr) bool { firstOnly[1]++; return false })
 			// The twin sees the same history plus a nameless record after
 			// every step: "a record without names changes nothing".
 			twin.Add(&hostsfile.Record{Addr: t.addr, Names: append([]string(nil), t.names...), Source: "t"})
@@ -618,6 +630,22 @@ func runStorage(sc storageCase, observeEvery bool) (viol, what string, collided 
 
 		if !eq1 || !eq2 {
 			return "equal", fmt.Sprintf("after step %d of %s: a storage with the same history plus records without names is not Equal (%v, %v)", step, sc, eq1, eq2), collided
+		}
+
+		// Equal against the storage that lacks the last record: equal iff
+		// that record changed nothing; never equal to nil.
+		same := fmt.Sprint(m.names, m.addrs) == before
+		if eqLag1 != same || eqLag2 != same {
+			return "equal", fmt.Sprintf("after step %d of %s: Equal with the storage that lacks the last record is (%v, %v), want %v", step, sc, eqLag1, eqLag2, same), collided
+		}
+
+		if eqNil || !nilEqNil {
+			return "equal", fmt.Sprintf("after step %d of %s: Equal(nil) = %v, nil.Equal(nil) = %v", step, sc, eqNil, nilEqNil), collided
+		}
+
+		// A Range callback that returns false is not called again.
+		if want := min(1, len(m.names)); firstOnly[0] != want || firstOnly[1] != min(1, len(m.addrs)) {
+			return "range-stop", fmt.Sprintf("after step %d of %s: callbacks returning false were called %v times (RangeNames, RangeAddrs)", step, sc, firstOnly), collided
 		}
 	}
 
